@@ -21,6 +21,9 @@ fn vol_of(b: &Built) -> VolCfg {
         clusters: g.clusters,
         root_entries: g.root_entries,
         status_off: if g.bits == 32 { 0x41 } else { 0x25 },
+        reserved: g.reserved,
+        spf: g.spf,
+        fats: g.fats,
     }
 }
 
